@@ -130,7 +130,8 @@ class FloatValidatorBase(FieldValidator[_P, float], Generic[_P, _C], metaclass=A
         """
 
         if isinstance(value, self._ctype):
-            return
+            # a ctypes instance can hold +-inf: check the value it carries
+            value = value.value
 
         if not isinstance(value, (float, int)):
             raise TypeError(f"Expected {value} to be a float")
